@@ -20,7 +20,7 @@ class WireStack:
         self.line = Line(loop, self.trace, vector=vector, rate=rate, seed=seed, chunking=chunking)
         self.ncp = ncpsim.FrameNcp(version, loop, self.trace)
         ncpmodel.install_config(self.ncp)
-        self.ash = R.RefNcpAsh(write=lambda b: self.line.send("n2h", b), call_later=loop.h_call_later,
+        self.ash = R.RefNcpAsh(write=self._ncp_write, call_later=loop.h_call_later,
                                window=window, on_data=self._on_data, on_rst=self._on_rst)
         self.ncp.deliver = self._ncp_deliver
         self.line.sink["h2n"] = self._h2n
@@ -31,6 +31,10 @@ class WireStack:
         self.connects = 0
 
     # -- NCP side -----------------------------------------------------------------------------
+    def _ncp_write(self, data):
+        if not self.silent:
+            self.line.send("n2h", data)
+
     def _h2n(self, chunk):
         if self.silent:
             return
@@ -98,7 +102,9 @@ class WireStack:
     def lose_connection(self, kind="error"):
         """As real transports do: noticed in an I/O callback, delivered through call_soon."""
         proto, tr = self.protocol, self.transport
-        if proto is None:
+        if proto is None or tr._closing:
+            # a transport the host already closed reports nothing further
+            self.trace.append(("conn_lost_ignored", self.loop.time(), kind))
             return
         tr._closing = True
         self.line.closed = True
